@@ -134,6 +134,9 @@ pub fn build() -> Vec<TypeOps> {
 	t!(v, "zst-wire"; Marker, Vec<Marker>, VecDeque<Marker>, [Marker; 4], Box<[Marker; 2]>, (u8, Marker), Vec<Option<Marker>>);
 	t!(v, "derived", "zst-wire"; TOnlyFirst, Box<TOnlyFirst>, [TOnlyFirst; 2], Arc<TOnlyFirst>, TOnlyLast, Box<TOnlyLast>, [TOnlyLast; 3], Rc<TOnlyLast>, Vec<TOnlyLast>);
 	t!(v, "derived", "zst-wire"; TCompactZ, Box<TCompactZ>, [TCompactZ; 2], Rc<TCompactZ>, TEncAsZ, Box<TEncAsZ>, [TEncAsZ; 3], Arc<TEncAsZ>);
+	t!(v, "derived", "zst-wire"; TAllZ, Box<TAllZ>, [TAllZ; 2], Rc<TAllZ>, Vec<TAllZ>);
+	t!(v, "derived", "ptr"; Shared<u32>, Shared<Vec<u8>>, Shared<Shared<u8>>, Vec<Shared<String>>, WList, Box<WList>, Shared<()>);
+	t!(v, "zst-elem"; LinkedList<SAllSkip>, LinkedList<Box<()>>, VecDeque<SAllSkip>, BinaryHeap<Box<()>>);
 	t!(v, "custom-fixed"; Vec<BeU32>, [BeU32; 3], Box<[BeU32; 2]>, VecDeque<BeU32>, (BeU32, u8), Vec<[BeU32; 2]>);
 
 	// --- element sizes that do not divide the 16 KiB preallocation window; big elements (few per chunk)
